@@ -50,6 +50,7 @@ SPECIAL_TREES = [
     [None, 0, 1, 2, 3, 4, 5],        # chain with 7 nodes
     [None, 0, 1, 2, 0, 4, 5],        # ties in depth
     [None, 0, 1, 2, 1, 4],           # chain with a side branch of length two (consecutive sweep sites 3 edges apart)
+    [None, 0, 1, 1, 2, 3],           # r-a, a-{a1,a2}, a1-a11, a2-a21: multi-hop centre moves in the BACKWARD sweep
     [None, 0, 1, 0, 3, 0, 5],        # three arms of length two, rooted at the centre
     [None, 0, 1, 2, 3, 2, 5],        # three arms of length two, rooted at the end of an arm
 ]
